@@ -1,0 +1,111 @@
+//! Verification hooks, compiled only with `--cfg bpaf_verif`.
+//!
+//! A thread-local event sink plus a logical step counter ("fuel"). Nothing in here changes what
+//! the parser computes: hooks only record what they see, the single exception being
+//! [`tick`] which panics with a [`FuelExhausted`] payload once a caller-supplied budget of
+//! evaluation steps is used up - that turns an unbounded loop into an observable event.
+#![allow(missing_docs)]
+
+use std::cell::RefCell;
+
+/// Something a hook observed
+#[derive(Debug, Clone, PartialEq, Eq)]
+pub enum Event {
+    /// cached count of unconsumed items disagrees with the per-item ledger
+    LedgerMismatch {
+        site: &'static str,
+        cached: usize,
+        counted: usize,
+    },
+    /// scope or ledger shape is inconsistent with the item list
+    ShapeMismatch {
+        site: &'static str,
+        scope_end: usize,
+        items: usize,
+        ledger: usize,
+    },
+    /// `run_subparser` is about to return a value
+    Accept {
+        depth: usize,
+        scope: (usize, usize),
+        /// one byte per item: 0 - unparsed, 1 - conflict, 2 - parsed
+        ledger: Vec<u8>,
+    },
+    /// `State::remove` was asked to remove something out of scope or already consumed
+    RemoveIgnored { index: usize },
+}
+
+/// Panic payload used when the step budget is exhausted
+#[derive(Debug, Clone, Copy)]
+pub struct FuelExhausted;
+
+/// Everything recorded since the last [`reset`]
+#[derive(Debug, Clone, Default)]
+pub struct Report {
+    pub events: Vec<Event>,
+    pub ticks: u64,
+    pub ledger_checks: u64,
+}
+
+#[derive(Default)]
+struct Sink {
+    report: Report,
+    fuel: u64,
+    armed: bool,
+}
+
+thread_local! {
+    static SINK: RefCell<Sink> = RefCell::new(Sink::default());
+}
+
+/// Forget everything recorded so far and arm the step counter with `fuel` steps (0 - unlimited)
+pub fn reset(fuel: u64) {
+    SINK.with(|s| {
+        let mut s = s.borrow_mut();
+        s.report = Report::default();
+        s.fuel = fuel;
+        s.armed = true;
+    });
+}
+
+/// Stop recording and return what was recorded
+pub fn take() -> Report {
+    SINK.with(|s| {
+        let mut s = s.borrow_mut();
+        s.armed = false;
+        std::mem::take(&mut s.report)
+    })
+}
+
+pub(crate) fn record(event: Event) {
+    SINK.with(|s| {
+        let mut s = s.borrow_mut();
+        if s.armed && s.report.events.len() < 10_000 {
+            s.report.events.push(event);
+        }
+    });
+}
+
+pub(crate) fn ledger_checked() {
+    SINK.with(|s| {
+        let mut s = s.borrow_mut();
+        if s.armed {
+            s.report.ledger_checks += 1;
+        }
+    });
+}
+
+/// One evaluation step
+pub(crate) fn tick() {
+    let exhausted = SINK.with(|s| {
+        let mut s = s.borrow_mut();
+        if !s.armed {
+            return false;
+        }
+        s.report.ticks += 1;
+        s.fuel != 0 && s.report.ticks > s.fuel
+    });
+    if exhausted {
+        std::panic::panic_any(FuelExhausted);
+    }
+}
